@@ -216,6 +216,10 @@ def engine_concrete(entry, params, vectors, opts):
         open(vf, "w").write("\n".join(",".join(str(x) for x in (v if v else [0])) for v in vectors) + "\n")
         cmd = [SYMX, "-entry", entry, "-harness", HARNESS, "-repo", REPO, "-vectors", vf,
                "-unwind", str(opts.get("unwind", 5000))]
+        if "depth" in opts:
+            cmd += ["-depth", str(opts["depth"])]
+        if "fuel" in opts:
+            cmd += ["-fuel", str(opts["fuel"])]
         if params:
             cmd += ["-param", ",".join("%s=%d" % kv for kv in sorted(params.items()))]
         try:
